@@ -592,6 +592,47 @@ public:
 
   std::set<std::string> seenFns;
   json::Array functions;
+  json::Array globals;
+  std::set<std::string> seenGlobals;
+
+  struct LitCollector : public RecursiveASTVisitor<LitCollector> {
+    json::Array strings;
+    bool VisitStringLiteral(clang::StringLiteral *SL) {
+      if (SL->getCharByteWidth() == 1) {
+        json::Array bytes;
+        for (unsigned char c : SL->getBytes())
+          bytes.push_back((int64_t)c);
+        strings.push_back(std::move(bytes));
+      }
+      return true;
+    }
+  };
+
+  void handleGlobal(const VarDecl *VD) {
+    if (!VD->hasGlobalStorage() || VD->isStaticLocal() || !VD->hasInit() || VD->getInit()->isValueDependent())
+      return;
+    if (VD->isInvalidDecl())
+      return;
+    std::string f = normPath(fileOf(VD->getLocation()));
+    if (!underRoots(f))
+      return;
+    std::string qn = VD->getQualifiedNameAsString();
+    if (!seenGlobals.insert(qn).second)
+      return;
+    json::Object g;
+    g["name"] = qn;
+    g["t"] = typeStr(VD->getType());
+    g["file"] = f;
+    g["line"] = (int64_t)lineOf(VD->getLocation());
+    if (const auto *AT = Ctx.getAsConstantArrayType(VD->getType()))
+      g["array_size"] = (int64_t)AT->getSize().getLimitedValue();
+    LitCollector LC;
+    LC.TraverseStmt(const_cast<Expr *>(VD->getInit()));
+    g["strings"] = std::move(LC.strings);
+    if (auto *IL = dyn_cast<InitListExpr>(VD->getInit()->IgnoreImplicit()))
+      g["init_count"] = (int64_t)IL->getNumInits();
+    globals.push_back(std::move(g));
+  }
   json::Array records;
   std::set<std::string> seenRecs;
 
@@ -816,6 +857,10 @@ public:
     E.handleRecord(RD);
     return true;
   }
+  bool VisitVarDecl(VarDecl *VD) {
+    E.handleGlobal(VD);
+    return true;
+  }
 };
 
 class Consumer : public ASTConsumer {
@@ -830,6 +875,7 @@ public:
       top["main"] = FE->getName().str();
     top["functions"] = std::move(E.functions);
     top["records"] = std::move(E.records);
+    top["globals"] = std::move(E.globals);
     if (TheDiags)
       top["diags"] = std::move(TheDiags->diags);
     std::error_code EC;
